@@ -20,14 +20,15 @@ fn check_tables(f: &gfref::Field, rep: &mut Report) {
         rep.violation(Violation { key: format!("table-{name}-{idx}"), case: format!("what=table name={name}"), expected: format!("{name}[{idx}] == {want}"), observed: got });
     };
     let el = &*tables::EXP_LOG;
-    for l in 0..65536usize {
+    // exp[65535] and log[0] are conventions (the logarithm of 0 is undefined), not definitions: not compared
+    for l in 0..65535usize {
         n += 1;
         if el.exp[l] != f.exp[l] {
             bad("exp", l.to_string(), format!("{:#06x}", f.exp[l]), format!("{:#06x}", el.exp[l]), rep);
             break;
         }
     }
-    for x in 0..65536usize {
+    for x in 1..65536usize {
         n += 1;
         if el.log[x] != f.log[x] {
             bad("log", x.to_string(), f.log[x].to_string(), el.log[x].to_string(), rep);
